@@ -25,7 +25,10 @@ pub struct Tour {
     activities: Vec<Activity>,
 
     /// Stores jobs in the order of their activities added.
+    #[cfg(not(kani))]
     jobs: HashSet<Job, BuildHasherDefault<FxHasher>>,
+    #[cfg(kani)]
+    jobs: crate::verif_containers::ListSet<Job>,
 
     /// Keeps track whether tour is set as closed.
     is_closed: bool,
